@@ -8,6 +8,8 @@ static ldc shape_val(int vk, int i, int j, int n) {
     case 1: return i == j ? (ld)(2 * n + 1 + (i % 3)) : generic_value(i, j, 3) / 4;
     case 2: { static const int t[] = { 1, 2, -1, 3, 1, -2, 2, 1, 4, -1, 1, 2 }; int k = (i * 5 + j * 3) % 12; return (ld)t[k]; }
     case 4: return (j == n / 2) ? 0 : generic_value(i, j, 1);       /* explicit zero column in the middle (K9) */
+    case 7: return (i == j ? (ld)(2 * n + 1 + (i % 3)) : generic_value(i, j, 3) / 4) * (ld)1.5;      /* value set 1 scaled: the same pivots pass again (K16) */
+    case 8: return i == j ? (i == n / 2 || i == 1 ? (ld)1e-3 : (ld)(2 * n + 1 + (i % 3))) : generic_value(i, j, 3) / 4;   /* value set 1 with two tiny diagonal entries: old pivots fail there (K16) */
     case 6: return (j == n / 3 || j == n / 2) ? 0 : generic_value(i, j, 1);   /* two explicit zero columns (K15: the first zero pivot must be reported whichever thread meets which) */
     default: return generic_value(i, j, 0);
     }
